@@ -55,6 +55,8 @@ def _universe(tier):
     extra = [G.V(e, "x", False, None) for e in (
         "[]", "[0]", "[0, 'a']", "[0, 'a', None]", "['a', 0]", "()", "(0,)", "(0, 'a')", "(0, 'a', None)",
         "{}", "{'k0': 0}", "{'k0': 0, 'k1': 'a'}", "{'k1': 'a', 'k0': 0}", "{'k1': 0}", "{'k0': 0, 'k1': 'a', 'k2': None}",
+        "{'k1': 'b', 'k0': 0}", "{'k1': 'a', 'k0': 1}", "{'k1': 0, 'k0': 'a'}", "{'k2': None, 'k0': 1, 'k1': 'a'}", "{'k1': [0], 'k0': {'k1': 1}}",
+        "[0, 0]", "[0, 0, 0]", "['a', 0, 'a', 0]", "(None, None)", "(None, None, None)", "[0, 'a', 0]",
         "[[0]]", "[(0,)]", "[[0], ['a', 0]]", "{'k0': [0, 1]}", "{'k0': {'k1': 0}}", "[{'k0': 0}]", "({'k0': (0,)},)",
         "{0, 1}", "{0}", "set()", "frozenset({0})", "{'a', 0}",
         "DC(x=[0])", "DC(x=[0, 1], y=1)", "[DC(x=1)]", "[DC(x=1), DC(x=2, y=2)]", "{'k0': DC(x=1)}", "DC(x=DC(x=1))",
